@@ -346,6 +346,99 @@ def r20_6(prog: Program, chk: Check) -> None:
            "narrows a by the operand that only constrained b to Never, losing member combinations")
 
 
+# ------------------------------------------------------------------- R20.7
+def _eval_chunk(args):
+    part, nparts, limit, full_positions = args
+    import ast as _ast
+
+    from ..minterp import Sym
+    from ..model import Program as _P
+    from . import eval_model as evm
+
+    model = evm.EvalModel(_P())
+    n = 0
+    classes: Dict[str, Dict[str, object]] = {}
+
+    def note(key: str, bad: bool, detail) -> None:
+        c = classes.setdefault(key, {"n": 0, "bad": 0, "witness": []})
+        c["n"] += 1  # type: ignore[operator]
+        if bad:
+            c["bad"] += 1  # type: ignore[operator]
+            w = c["witness"]
+            w.append(detail)  # type: ignore[union-attr]
+            w.sort(key=lambda d: (len(d["evaluator"]), len(d["x"]) + len(d["y"]), repr(d)))  # type: ignore[union-attr]
+            del w[3:]  # type: ignore[arg-type]
+
+    progs = list(evm.programs())
+    if limit:
+        progs = progs[::limit]
+    for idx, (src, ref) in enumerate(progs):
+        if idx % nparts != part:
+            continue
+        fn = _ast.parse(src).body[0]
+        for xs in evm.ARG_TYPES:
+            for ys in (("int",), ("str", "int")):
+                uses_kinds = "is_provided" in src or "is_positional" in src or "is_keyword" in src
+                for pos in (evm.POSITIONS if (full_positions or uses_kinds) else evm.POSITIONS[:1]):
+                    n += 1
+                    pm = {k: (Sym(v) if v in ("ARGS", "KWARGS", "DEFAULT", "UNKNOWN") else v) for k, v in pos.items()}
+                    got = model.evaluate(fn, {"x": model.union(xs), "y": model.union(ys)}, pm)
+                    d = {"evaluator": src, "x": " | ".join(xs), "y": " | ".join(ys), "positions": pos}
+                    if got[0] == "crash":
+                        note("no-crash", True, {**d, "error": got[1]})
+                        continue
+                    note("no-crash", False, d)
+                    labels, shown, invalid = got
+                    note("generated evaluators are valid", bool(invalid), {**d, "invalid": invalid})
+                    if invalid:
+                        continue
+                    wl, we = evm.reference(ref, xs, ys, pos)
+                    if len(xs) > 1 and len(ys) > 1:
+                        # two union arguments: the documented algorithm narrows each variable on its own, so combinations of
+                        # members that the conditions exclude may still contribute; nothing a real combination produces may be lost
+                        note("two union arguments: every member combination's result and error is included", not (wl <= labels and set(we) <= set(shown)), {**d, "result": sorted(labels), "errors": shown, "specified_at_least": [sorted(wl), we]})
+                    else:
+                        note("result = union of the results for each member of the union argument", labels != wl, {**d, "result": sorted(labels), "specified": sorted(wl)})
+                        note("show_error fires exactly in the branches some member executes", shown != we, {**d, "errors": shown, "specified": we})
+    return n, classes
+
+
+def r20_7(prog: Program, chk: Check) -> None:
+    import multiprocessing as mp
+    import os as _os
+
+    limit = 5 if _os.environ.get("VERIF_SELFTEST") else 0
+    full_positions = chk.tier == "thorough" or bool(_os.environ.get("VERIF_SELFTEST"))
+    chk.rule(
+        "R20.7",
+        "the type evaluator as a finite model: EvaluateVisitor, ConditionEvaluator (is_of_type with and without exclude_any, is_provided / is_positional / is_keyword, not, and, or), "
+        "ConditionReturn.reverse, CombinedReturn.make, EvalContext.narrow_variables (a real context manager), decompose_union, can_assign_maybe_exclude_any and unite_varmaps are "
+        "interpreted from their AST on 381 generated evaluator bodies (if / elif / else, nested if, return, show_error) x 10 types for x (incl. unions and Any) x 2 for y x 4 argument-kind "
+        "assignments; the result equals the union of the results for each member of a union argument evaluated separately (Any matching only Any / object unless exclude_any=False, a matching test "
+        "narrowing the variable), show_error fires exactly in the branches some member executes; with two union arguments nothing a member combination produces is lost",
+        floor=5,
+    )
+    procs = 2 if _os.environ.get("VERIF_SELFTEST") else min(16, _os.cpu_count() or 1)
+    with mp.get_context("fork").Pool(procs) as pl:
+        results = pl.map(_eval_chunk, [(i, procs * 3, limit, full_positions) for i in range(procs * 3)])
+    total = 0
+    merged: Dict[str, Dict[str, object]] = {}
+    for n, classes in results:
+        total += n
+        for k, c in classes.items():
+            m = merged.setdefault(k, {"n": 0, "bad": 0, "witness": []})
+            m["n"] += c["n"]  # type: ignore[operator]
+            m["bad"] += c["bad"]  # type: ignore[operator]
+            m["witness"] = sorted(list(m["witness"]) + list(c["witness"]), key=lambda d: (len(d["evaluator"]), len(d["x"]) + len(d["y"]), repr(d)))[:3]  # type: ignore[arg-type]
+    chk.model_evaluations += total
+    chk.analysed["evaluator_model"] = {"evaluations": total}
+    site = prog.site("type_evaluation", prog.func("type_evaluation", "EvaluateVisitor.visit_If"))
+    for k, c in sorted(merged.items()):
+        wit = c["witness"]
+        chk.ob("R20.7", f"type_evaluation::evaluator-model::{k}", int(c["bad"]) == 0, site,  # type: ignore[arg-type]
+               f"{c['n']} evaluations, {c['bad']} failing" + (f"; smallest: {wit[0]}" if wit else ""), witness=wit)  # type: ignore[index]
+
+
 def run(prog: Program, chk: Check) -> None:
     guard(chk, r20_1, prog, chk)
     guard(chk, r20_2, prog, chk)
@@ -353,3 +446,4 @@ def run(prog: Program, chk: Check) -> None:
     guard(chk, r20_4, prog, chk)
     guard(chk, r20_5, prog, chk)
     guard(chk, r20_6, prog, chk)
+    guard(chk, r20_7, prog, chk)
